@@ -14,10 +14,11 @@ def moves(empty):
         else:
             out += [("write %d %d %d" % (h, h + 1, 70 + h), None, None), ("ntt %d" % h, None, None), ("setu %d %d" % (h, 9 + h), None, None),
                     ("destroy %d" % h, None, h), ("copya %d %d" % (h, h), None, None), ("read %d 0" % h, None, None),
-                    ("setbad %d" % h, None, None), ("nubad %d" % h, None, None), ("deserbad %d" % h, None, None)]
+                    ("setbad %d" % h, None, None), ("nubad %d" % h, None, None), ("deserbad %d" % h, None, None), ("ilbad %d" % h, None, None), ("csave %d" % h, None, None)]
             for g in range(H):
                 if not empty[g] and g != h:
-                    out += [("copya %d %d" % (h, g), None, None), ("movea %d %d" % (h, g), None, g), ("add %d %d %d" % (h, g, h), None, None), ("cmp %d %d" % (h, g), None, None)]
+                    out += [("copya %d %d" % (h, g), None, None), ("movea %d %d" % (h, g), None, g), ("add %d %d %d" % (h, g, h), None, None), ("cmp %d %d" % (h, g), None, None),
+                            ("fma %d %d %d" % (h, g, g), None, None), ("cload %d %d" % (h, g), None, None)]
     return out
 
 def moves_raw(empty):
